@@ -114,6 +114,8 @@ type scionVariant struct {
 	scmp           bool
 	e2eTs          int64 // != 0: E2E extension with a timestamp option carrying this time
 	e2eEmpty       bool  // E2E extension with a padding option only
+	tsUse          bool  // the option's time lies inside the exchange: the client is expected to use it
+	tsRaw          []byte // != nil: E2E extension with a timestamp option carrying these (malformed) bytes
 	udpLenDelta    int   // added to the UDP length field after serialisation
 	truncate       int   // bytes cut from the end
 	garbage        []byte
@@ -170,10 +172,12 @@ func buildSCION(v scionVariant, srcPort, dstPort uint16, payload []byte) (d dgra
 			must(u.SerializeTo(buffer, options))
 		}
 		scn.NextHdr = l4
-		if v.e2eTs != 0 || v.e2eEmpty {
+		if v.e2eTs != 0 || v.e2eEmpty || v.tsRaw != nil {
 			var e2e slayers.EndToEndExtn
 			e2e.NextHdr = l4
-			if v.e2eTs != 0 {
+			if v.tsRaw != nil {
+				e2e.Options = []*slayers.EndToEndOption{{OptType: scion.OptTypeTimestamp, OptData: v.tsRaw}}
+			} else if v.e2eTs != 0 {
 				e2e.Options = []*slayers.EndToEndOption{{OptType: scion.OptTypeTimestamp, OptData: tsOptData(v.e2eTs)}}
 			} else {
 				e2e.Options = []*slayers.EndToEndOption{{OptType: slayers.OptTypePadN, OptData: make([]byte, 2)}}
@@ -229,6 +233,7 @@ func buildSCION(v scionVariant, srcPort, dstPort uint16, payload []byte) (d dgra
 	if len(p.decoded) >= 3 && p.decoded[len(p.decoded)-2] == slayers.LayerTypeEndToEndExtn && v.e2eTs != 0 {
 		ts = fmt.Sprint(v.e2eTs)
 		d.tsOpt = v.e2eTs
+		d.tsUse = v.tsUse
 	}
 	udpLen := 0
 	if isUDP {
@@ -241,6 +246,15 @@ func buildSCION(v scionVariant, srcPort, dstPort uint16, payload []byte) (d dgra
 		p.scn.SrcIA == remoteIA && hostNum(p.scn.RawSrcAddr) == addrNum(thePeer.addr.Addr()) &&
 		p.scn.DstIA == localIA && hostNum(p.scn.RawDstAddr) == addrNum(localIP)
 	return
+}
+
+// firstReading: cTxTime0 of the running exchange (the clock's first reading since reset).
+func firstReading() int64 {
+	rd := clk.readings()
+	if len(rd) == 0 {
+		return wallNow().UnixNano()
+	}
+	return rd[0].UnixNano()
 }
 
 func genuineVariant() scionVariant {
@@ -266,7 +280,21 @@ func scionMutants(r *lib.Rand, now int64) []scionMutant {
 		{"srcHost=v4mapped", with(func(v *scionVariant) { v.srcIP = netip.AddrFrom16(v.srcIP.As16()) }), nil},
 		{"scmp", with(func(v *scionVariant) { v.scmp = true }), nil},
 		{"e2e:padding", with(func(v *scionVariant) { v.e2eEmpty = true }), nil},
-		{"e2e:timestamp", with(func(v *scionVariant) { v.e2eTs = now + 2000000 }), nil},
+		{"e2e:timestamp", with(func(v *scionVariant) { v.e2eTs = wallNow().UnixNano(); v.tsUse = true }), nil},
+		{"e2e:timestamp:1h-early", with(func(v *scionVariant) { v.e2eTs = now - 3600*nsps }), nil},
+		{"e2e:timestamp:just-before-tx", with(func(v *scionVariant) { v.e2eTs = firstReading() - 1 }), nil},
+		{"e2e:timestamp:late", with(func(v *scionVariant) { v.e2eTs = now + 20000000 }), nil},
+		{"e2e:timestamp:100y-future", with(func(v *scionVariant) { v.e2eTs = now + 100*365*86400*nsps }), nil},
+		{"e2e:timestamp:malformed-len63", with(func(v *scionVariant) { v.tsRaw = tsOptData(now)[:63] }), nil},
+		{"e2e:timestamp:malformed-len20", with(func(v *scionVariant) { v.tsRaw = tsOptData(now)[:20] }), nil},
+		{"e2e:timestamp:malformed-cmsglen", with(func(v *scionVariant) {
+			v.tsRaw = tsOptData(now)
+			binary.NativeEndian.PutUint64(v.tsRaw, 200)
+		}), nil},
+		{"e2e:timestamp:inconsistent-triple", with(func(v *scionVariant) {
+			v.tsRaw = tsOptData(now)
+			binary.NativeEndian.PutUint64(v.tsRaw[unix.CmsgSpace(32):], uint64(now/nsps))
+		}), nil},
 		{"udplen+1", with(func(v *scionVariant) { v.udpLenDelta = 1 }), nil},
 		{"udplen+200", with(func(v *scionVariant) { v.udpLenDelta = 200 }), nil},
 		{"truncate:1", with(func(v *scionVariant) { v.truncate = 1 }), nil},
